@@ -1,4 +1,4 @@
-import Octo.Lemmas.JoinFinal
+import Octo.Lemmas.JoinProgressInd
 /-!
 # C19 — Stream joins are internally consistent under every schedule
 
@@ -64,6 +64,26 @@ theorem consistent_at_wm {cfg : Cfg} (hcur : Current cfg) {ls rs : List Msg} {σ
   rw [net_specRecs]
   exact wmOK_split h row
 
+/-- inputs on which the node must not panic: every record has its key columns, records that carry an
+    event time are insertions (append-only streams), and the records without event time of each input
+    form, in arrival order, a valid changelog (tables, changelogs of upstream operators). -/
+structure GoodInputs (cfg : Cfg) (ls rs : List Msg) : Prop where
+  keysL : ∀ x ∈ recs ls, KeysOK cfg true x
+  keysR : ∀ x ∈ recs rs, KeysOK cfg false x
+  timedL : ∀ x ∈ recs ls, untimed x = false → x.retr = false
+  timedR : ∀ x ∈ recs rs, untimed x = false → x.retr = false
+  validL : ValidLog ((recs ls).filter untimed)
+  validR : ValidLog ((recs rs).filter untimed)
+
+/-- **no_panic**: on such inputs the node finishes under every schedule (the two panics of `receiveRecord` — key
+    index out of range, `EventTimes[1:]` of an empty slice — cannot happen), so `final` and
+    `consistent_at_wm` are not vacuous. -/
+theorem no_panic {cfg : Cfg} (hcur : Current cfg) {ls rs : List Msg} {σ : List Ev}
+    (hw : WidthsOK cfg ls rs) (hg : GoodInputs cfg ls rs) (hI : Interleave ls rs σ) :
+    ∃ out, run cfg σ = .ok out := by
+  have sh := shapes_of_widths hw
+  exact run_ok (specW_recvOK hcur.2) hcur.2 hcur.1 sh.1 sh.2 hg.keysL hg.keysR hg.timedL hg.timedR hg.validL hg.validR hI
+
 /-- the inner join node, stated directly -/
 theorem streamJoin_final (keysL keysR : List Nat) {ls rs : List Msg} {σ : List Ev} {out : List Msg}
     (hI : Interleave ls rs σ) (hrun : run (cfgInner keysL keysR) σ = .ok out) :
@@ -79,14 +99,16 @@ theorem outerJoin_final (oL oR : Bool) (nL nR : Nat) (keysL keysR : List Nat) {l
 
 /-- the full-strength statement of the property for a node configuration -/
 def Statement (cfg : Cfg) : Prop :=
-  ∀ (ls rs : List Msg) (σ : List Ev) (out : List Msg), Interleave ls rs σ → WidthsOK cfg ls rs →
-    run cfg σ = .ok out →
-    SameNet (recs out) (specRecs cfg (recs ls) (recs rs)) ∧
-    (Fresh none ls → Fresh none rs → ConsistentAtWm cfg ls rs out)
+  ∀ (ls rs : List Msg) (σ : List Ev), Interleave ls rs σ → WidthsOK cfg ls rs →
+    (GoodInputs cfg ls rs → ∃ out, run cfg σ = .ok out) ∧
+    ∀ out, run cfg σ = .ok out →
+      SameNet (recs out) (specRecs cfg (recs ls) (recs rs)) ∧
+      (Fresh none ls → Fresh none rs → ConsistentAtWm cfg ls rs out)
 
 /-- **C19, full strength, on the current tree**: for StreamJoin and for LEFT / RIGHT / FULL OuterJoin. -/
 theorem C19_full (cfg : Cfg) (hcur : Current cfg) : Statement cfg :=
-  fun _ _ _ _ hI hw hrun => ⟨final hcur hw hI hrun, fun hfl hfr => consistent_at_wm hcur hw hI hfl hfr hrun⟩
+  fun _ _ _ hI hw => ⟨fun hg => no_panic hcur hw hg hI,
+    fun _ hrun => ⟨final hcur hw hI hrun, fun hfl hfr => consistent_at_wm hcur hw hI hfl hfr hrun⟩⟩
 
 /-! ## Non-vacuity and the refutation of the code before the repairs -/
 
@@ -108,6 +130,21 @@ example : Fresh none wL ∧ Fresh none wR := ⟨⟨rfl, rfl, trivial⟩, ⟨rfl,
 example : run (cfgInner [0] [0]) wσ =
     .ok [.data { vals := [.int 1, .int 1], retr := false, et := some 7 }, .wm 8] := by rfl
 
+/-- the hypotheses of `no_panic` are met by inputs with a retraction -/
+example : GoodInputs (cfgInner [0] [0])
+    [.data (rec1 none), .data { vals := [.int 1], retr := true, et := none }] [.data (rec1 (some 3)), .wm 4] :=
+  { keysL := by intro x hx; simp [recs] at hx; rcases hx with rfl | rfl <;> exact ⟨[.int 1], rfl⟩
+    keysR := by intro x hx; simp [recs] at hx; subst hx; exact ⟨[.int 1], rfl⟩
+    timedL := by intro x hx; simp [recs] at hx; rcases hx with rfl | rfl <;> simp [untimed, rec1]
+    timedR := by intro x hx; simp [recs] at hx; subst hx; simp [rec1]
+    validL := by
+      have e : (recs [.data (rec1 none), .data { vals := [.int 1], retr := true, et := none }]).filter untimed =
+          [rec1 none, { vals := [.int 1], retr := true, et := none }] := rfl
+      rw [e]
+      intro n row
+      rcases n with _ | _ | _ | n <;> simp [net, Rec.weight, rec1] <;> split <;> simp
+    validR := by intro n row; simp [recs, untimed, rec1, net] }
+
 /-- the schedule on which the unrepaired StreamJoin lost the pair: left = [rec(1, et 5)],
     right = [rec(1, et 7), wm 10], order L.rec R.rec R.wm L.close R.close -/
 def xL : List Msg := [.data (rec1 (some 5))]
@@ -127,16 +164,16 @@ example : run (cfgInner [0] [0]) xσ = .ok [.data { vals := [.int 1, .int 1], re
     while both records are still buffered -/
 theorem switch_refuted : ¬ Statement cfgBeforeSwitchFix := by
   intro h
-  have h1 := (h xL xR xσ [] xσ_interleave (fun h => by cases h) (by rfl)).1 [.int 1, .int 1]
+  have h1 := ((h xL xR xσ xσ_interleave (fun h => by cases h)).2 [] (by rfl)).1 [.int 1, .int 1]
   revert h1
   decide
 
 /-- … and NULL keys matched: `NULL = NULL` produced a row -/
 theorem null_refuted : ¬ Statement cfgBeforeNullFix := by
   intro h
-  have h1 := (h [.data recN] [.data recN] [evL (some (.data recN)), evR (some (.data recN)), evL none, evR none]
-    [.data { vals := [.null, .null], retr := false, et := none }]
-    (.left (.right (.left (.right .nil)))) (fun h => by cases h) (by rfl)).1 [.null, .null]
+  have h1 := ((h [.data recN] [.data recN] [evL (some (.data recN)), evR (some (.data recN)), evL none, evR none]
+    (.left (.right (.left (.right .nil)))) (fun h => by cases h)).2
+    [.data { vals := [.null, .null], retr := false, et := none }] (by rfl)).1 [.null, .null]
   revert h1
   decide
 
